@@ -72,18 +72,34 @@ def run_files(pid, tier):
                 problems.append(f"{rel}: accessors {acc}, declared {sorted(want['accessors'])}")
             if proj["doc"] != want["doc"]:
                 problems.append(f"{rel}: module doc {proj['doc']}, declared {want['doc']}")
-            # prologues first, epilogues last, complete, in source order, nothing of other backends
+            # prologues first, epilogues last, complete, in source order, nothing of other backends.  Top-level items that are
+            # neither recognised generated items nor named in any backend text (helper items a future pyxis might emit) are
+            # not attributed to anybody and not judged.
             top = proj["top"]
             pro, epi = const_names(want["pro"]), const_names(want["epi"])
+            mod_in = next(m for m in case["input"]["mods"] if "/".join(m["path"]) + ".rs" == rel)
+            others = const_names([t for b in mod_in["backs"] if b["name"] != "rust" for t in (b["pro"], b["epi"])])
             foreign = [t["name"] for t in top if t["kind"] == "foreign"]
-            if foreign != pro + epi:
-                problems.append(f"{rel}: backend items {foreign}, expected prologues {pro} then epilogues {epi}")
+            leaked = [n for n in foreign if n in others and n not in pro + epi]
+            if leaked:
+                problems.append(f"{rel}: text of another backend is included: {leaked}")
+            known = [n for n in foreign if n in pro + epi]
+            if known != pro + epi:
+                problems.append(f"{rel}: backend items {known}, expected prologues {pro} then epilogues {epi}")
             else:
-                kinds = [("pro" if i < len(pro) else "epi") if t["kind"] == "foreign" else "gen"
-                         for i, t in zip(_foreign_index(top), top)]
-                order = [k for k in kinds]
+                seen_k, order = 0, []
+                for t in top:
+                    if t["kind"] == "foreign":
+                        if t["name"] in pro + epi:
+                            order.append("pro" if seen_k < len(pro) else "epi")
+                            seen_k += 1
+                    else:
+                        order.append("gen")
                 if order != sorted(order, key=lambda k: {"pro": 0, "gen": 1, "epi": 2}[k]):
                     problems.append(f"{rel}: prologue/items/epilogue out of order: {order}")
+                extras = [n for n in foreign if n not in pro + epi and n not in others]
+                if extras:
+                    res.notes.append(f"case {cid}: {rel} holds top-level items of unknown origin {extras[:4]} (not judged)")
         if problems:
             res.violation("; ".join(problems[:3]), payload(case, obs), kf_class)
         if len(res.samples) < 4:
